@@ -1784,7 +1784,8 @@ def dictlist2array(dlist, keys=None, sort=False):
     arr = np.zeros(len(dlist), dtype=dtype)
 
     for i, d in enumerate(dlist):
-        for key in d:
+        # only the requested keys have a field
+        for key in names:
             arr[key][i] = d[key]
 
     return arr
